@@ -113,6 +113,15 @@ macro_rules! with_kind {
 /// bit0 conservative, bit1 pure-integer q-ratio, bit2 allow small, bit3 allow half, bit4 allow quarter.
 pub fn options(o: u8) -> GeneratorOptions {
     let mut g = GeneratorOptions::new();
+    if o.count_ones() % 2 == 0 {
+        // half of the settings are reached by first setting every option to the OPPOSITE value on the same object
+        // (a setter that only ever turns something on, or remembers an earlier value, shows up here)
+        apply_options(&mut g, !o);
+    }
+    apply_options(&mut g, o);
+    g
+}
+fn apply_options(g: &mut GeneratorOptions, o: u8) {
     g.length_processing_mode(if o & 1 != 0 {
         DataLengthProcessingMode::Conservative
     } else {
@@ -122,7 +131,6 @@ pub fn options(o: u8) -> GeneratorOptions {
     g.allow_small_size_files(o & 4 != 0);
     g.allow_statistically_weak_buckets_half(o & 8 != 0);
     g.allow_statistically_weak_buckets_quarter(o & 16 != 0);
-    g
 }
 /// Most permissive options with integer (28|2) or f32 (28) ratios.
 pub const OPT_PERMISSIVE_INT: u8 = 4 | 8 | 16 | 2;
